@@ -136,10 +136,12 @@ func (h *Handler) HandleIQ(iq stanza.IQ, t xmlstream.TokenReadEncoder, start *xm
 		if err != nil {
 			return err
 		}
-		err = conn.closeNoNotify(t)
-		if err != nil {
-			return err
-		}
+		// The stream is closed whatever became of the data that was still buffered.
+		// An error left behind by an earlier write (for example a packet that the
+		// peer refused) concerns this stream only and must not end the session; if
+		// the session itself can no longer be written to the reply fails as well.
+		/* #nosec */
+		_ = conn.closeNoNotify(t)
 		_, err = xmlstream.Copy(t, iq.Result(nil))
 		return err
 	case "data":
